@@ -76,7 +76,7 @@ func checkC16Races(c *Ctx) {
 	}
 	nsim, keep := 400, 20
 	if !c.Quick() {
-		nsim, keep = 20000, 1200
+		nsim, keep = 20000, 500
 	}
 	var scheds []concSched
 	for _, mix := range []string{"gc", "gcdel"} {
